@@ -722,4 +722,64 @@ theorem toNat_inj {a b : Bits} (hl : a.length = b.length) (h : toNat a = toNat b
   simp only [testBit_toNat, List.getD_eq_getElem?_getD, List.getElem?_eq_getElem h1, List.getElem?_eq_getElem h2,
     Option.getD_some] at this
   exact this
+
+/-! ### conversion between a block and the number it stands for, and conversions through a machine word
+
+`getRepr` builds the `std::bitset<B>` bit by bit, which is exact for every `B`.  A conversion that passes through a
+`W`-bit machine word (`to_ulong`/`to_ullong`, `bitset(unsigned long long)`; `W = 32, 64`) is exact precisely for
+`B ≤ W` — the reason the differential run instantiates block sizes on both sides of 32, 64 and 128. -/
+
+/-- `std::bitset<B>(n)` for a number of arbitrary size: bit `j` of the block is bit `j` of `n` -/
+def ofNat (B n : Nat) : Bits := (List.range B).map n.testBit
+
+theorem length_ofNat (B n : Nat) : (ofNat B n).length = B := by simp [ofNat]
+
+theorem getD_ofNat (B n j : Nat) : (ofNat B n).getD j false = (decide (j < B) && n.testBit j) := by
+  rw [ofNat, getD_map_range]
+
+/-- block → number → block is the identity, for every width -/
+theorem ofNat_toNat (a : Bits) : ofNat a.length (toNat a) = a := by
+  apply List.ext_getElem (length_ofNat _ _)
+  intro j h1 h2
+  have := getD_ofNat a.length (toNat a) j
+  rw [testBit_toNat] at this
+  simp only [List.getD_eq_getElem?_getD, List.getElem?_eq_getElem h1, List.getElem?_eq_getElem h2, Option.getD_some,
+    h2, decide_true, Bool.true_and] at this
+  exact this
+
+/-- number → block → number keeps exactly the low `B` bits -/
+theorem toNat_ofNat (B n : Nat) : toNat (ofNat B n) = n % 2 ^ B := by
+  apply Nat.eq_of_testBit_eq
+  intro j
+  rw [testBit_toNat, getD_ofNat, Nat.testBit_mod_two_pow]
+
+/-- the conversion of a block that passes through a `W`-bit machine word -/
+def viaWord (W : Nat) (a : Bits) : Bits := ofNat a.length (toNat a % 2 ^ W)
+
+theorem getD_viaWord (W : Nat) (a : Bits) (j : Nat) :
+    (viaWord W a).getD j false = (decide (j < W) && a.getD j false) := by
+  rw [viaWord, getD_ofNat, Nat.testBit_mod_two_pow, testBit_toNat]
+  by_cases h : j < a.length
+  · simp [h]
+  · have : a.getD j false = false := by
+      rw [List.getD_eq_getElem?_getD, List.getElem?_eq_none (by omega)]; rfl
+    simp [h, this]
+
+/-- a word conversion is exact for all blocks of width `B` iff `B ≤ W` -/
+theorem viaWord_exact_iff (W B : Nat) : (∀ a : Bits, a.length = B → viaWord W a = a) ↔ B ≤ W := by
+  constructor
+  · intro h
+    apply Nat.le_of_not_lt
+    intro hlt
+    have e := h (List.replicate B true) (by simp)
+    have g := getD_viaWord W (List.replicate B true) W
+    rw [e] at g
+    have : (List.replicate B true).getD W false = true := by
+      rw [List.getD_eq_getElem?_getD, List.getElem?_replicate]; simp [hlt]
+    rw [this] at g
+    simp at g
+  · intro hle a ha
+    have hlt : toNat a < 2 ^ W :=
+      Nat.lt_of_lt_of_le (toNat_lt a) (Nat.pow_le_pow_right (by omega) (ha ▸ hle))
+    rw [viaWord, Nat.mod_eq_of_lt hlt, ofNat_toNat]
 end DV.C11.BV
